@@ -108,6 +108,27 @@ def raw_doc(draw):
     (ii) one component union used by a parameter and by model properties / array items / a response with other requiredness."""
     from . import c15
 
+    if draw(st.integers(0, 2)) == 0:
+        # (iii) responses that list several media types, with and without schemas, in every order: decode source and schema must
+        # come from the same entry
+        entries = {"text_noschema": ("text/plain", None), "text_str": ("text/plain", {"type": "string"}),
+                   "json_model": ("application/json", {"$ref": "#/components/schemas/Report"}), "json_int": ("application/json", {"type": "integer"}),
+                   "json_noschema": ("application/json", None), "vnd_json_list": ("application/vnd.x+json", {"type": "array", "items": {"$ref": "#/components/schemas/Report"}}),
+                   "octet": ("application/octet-stream", {"type": "string", "format": "binary"}), "octet_noschema": ("application/octet-stream", None),
+                   "xml_model": ("application/xml", {"$ref": "#/components/schemas/Report"})}
+        paths = {}
+        tags = []
+        for k_op in range(draw(st.integers(1, 3))):
+            responses = {}
+            for status in draw(st.lists(st.sampled_from(["200", "201", "404", "default"]), min_size=1, max_size=2, unique=True)):
+                keys = draw(st.lists(st.sampled_from(sorted(entries)), min_size=2, max_size=3, unique_by=lambda k: entries[k][0]))
+                responses[status] = {"description": "r", "content": {entries[k][0]: ({"schema": entries[k][1]} if entries[k][1] is not None else {})
+                                                                     for k in keys}}
+                tags.append("+".join(keys))
+            paths[f"/multi{k_op}"] = {"get": {"operationId": f"readMulti{k_op}", "responses": responses}}
+        doc = {"openapi": "3.0.3", "info": {"title": "t", "version": "1"}, "paths": paths,
+               "components": {"schemas": {"Report": {"type": "object", "required": ["n"], "properties": {"n": {"type": "integer"}}}}}}
+        return {"raw": doc, "tag": "multi_media_response:" + tags[0], "literal": draw(st.booleans())}
     if draw(st.booleans()):
         meets = [(a, b) for a, b in c15.pairs() if c15.meet(a, b) is not None
                  and not ({a, b} & {"arr_int", "arr_num"} and "KF-C11-02" in _live and a != b)]
@@ -149,7 +170,7 @@ def _doc_of(d):
 
 @st.composite
 def batches(draw, tier):
-    return {"kind": "batch", "docs": [draw(one_doc()) for _ in range(BATCH)] + [draw(raw_doc()), draw(raw_doc())]}
+    return {"kind": "batch", "docs": [draw(one_doc()) for _ in range(BATCH)] + [draw(raw_doc()), draw(raw_doc()), draw(raw_doc())]}
 
 
 def strategy(tier):
